@@ -143,9 +143,9 @@ def _propagate(case, masks):
     if "before" in tilts:
         w = w * lentil.Tilt(x=ang[0], y=-ang[1])
     for (a, o), m in zip(planes, masks):
-        pl, _variant = cm.derive_obj(lentil.Pupil(amplitude=a.copy(), opd=o.copy(), mask=m.copy(),
-                                                  pixelscale=cm.as_ps(case["dx"]), focal_length=case["z"]),
-                                     a.shape[0] + a.shape[1] + int(np.count_nonzero(a)))
+        pl, _variant = cm.build_obj(lentil.Pupil, "lentil.Pupil", a.shape[0] + a.shape[1] + int(np.count_nonzero(a)),
+                                    amplitude=a.copy(), opd=o.copy(), mask=m.copy(),
+                                    pixelscale=cm.as_ps(case["dx"]), focal_length=case["z"])
         w = w * pl
         if any(np.ndim(f.data) == 2 and f.data.size == 1 for f in w.data):
             # the overlap of two planes' supports left a one-sample field (infinite constant, known finding)
@@ -236,6 +236,143 @@ def segmented(case, ctx):
     ri = (np.abs(ref) ** 2).astype(float) * sel
     if cm.max_abs(s_i - ri) > 4 * tol * (1 + k) * (cm.max_abs(ref) + tol) + 1e-300:
         raise Violation("C03.image.ref_intensity", "segmented intensity differs from |coherent Fraunhofer sum|^2")
+
+
+# --- planes that were already used, then derived (rescaled, copied, edited) and used again ----------------------
+
+DERIVE_OPS = ["rescale", "rescale", "resample", "copy", "deepcopy", "pickle", "set_opd", "set_amp", "use"]
+
+
+_has_block = gen.has_block
+
+
+@st.composite
+def used_case(draw, tier="quick"):
+    shape = draw(gen.shape2(8, 16 if tier == "quick" else 24))
+    samp = draw(gen.sampling(shape))
+    wl = samp["wavelength"]
+    amp, opd, mask = draw(gen.aperture(shape, wl, min_samples=12))
+    if draw(st.booleans()):
+        # solid rectangle cut into 2-3 thick off-centre stripes (>= 4 samples wide): survives every rescale factor used
+        m, n = shape = (draw(st.integers(12, 20)), draw(st.integers(12, 20)))
+        samp = draw(gen.sampling(shape))
+        wl = samp["wavelength"]
+        r0, c0 = draw(st.integers(0, 3)), draw(st.integers(0, 3))
+        r1, c1 = m - draw(st.integers(0, 3)), n - draw(st.integers(0, 3))
+        mask = np.zeros(shape, dtype=int)
+        mask[r0:r1, c0:c1] = 1
+        rng = np.random.default_rng(draw(st.integers(0, 2**31 - 1)))
+        amp = mask * (0.5 + 0.5 * rng.uniform(size=shape))
+        opd = mask * 0.2 * wl * rng.normal(size=shape)
+        k = draw(st.integers(2, 3))
+        labels = np.zeros(shape, dtype=int)
+        if draw(st.booleans()):
+            cuts = np.linspace(r0, r1, k + 1).astype(int)
+            for j in range(k):
+                labels[cuts[j]:cuts[j + 1], c0:c1] = j + 1
+            kind = "thick_stripes_r"
+        else:
+            cuts = np.linspace(c0, c1, k + 1).astype(int)
+            for j in range(k):
+                labels[r0:r1, cuts[j]:cuts[j + 1]] = j + 1
+            kind = "thick_stripes_c"
+    else:
+        labels, kind = draw(gen.partition(mask.astype(bool), kmax=4, kmin=2))
+        labels, nfix = merge_single_sample_segments(labels)
+    ops = [{"op": "use"}]
+    for _ in range(draw(st.integers(1, 4))):
+        ops.append({"op": draw(st.sampled_from(DERIVE_OPS)), "s": draw(st.sampled_from([2.0, 0.5, 1.5, 3.0, 0.75, 1.0])),
+                    "seed": draw(st.integers(0, 2**31 - 1))})
+        if draw(st.booleans()):
+            ops.append({"op": "use"})
+    ops.append({"op": "use"})
+    return {"shape": list(shape), "amp": amp, "opd": opd, "mask": mask, "labels": labels, "kind": kind,
+            "dx": samp["dx"], "du": samp["du"], "z": samp["z"], "wavelength": wl, "oversample": samp["oversample"],
+            "out_shape": list(draw(gen.shape2(2, 10))), "ops": ops}
+
+
+@hyp("C03", "used_then_derived", lambda tier: used_case(tier),
+     "one aperture as a global mask and as a cube of 2-4 segment masks; both planes are USED (multiplied and "
+     "propagated) and then rescaled / resampled / copied / pickled / given new OPD or amplitude arrays, and used "
+     "again: at every use the two descriptions give the same pupil field and the same propagated field",
+     examples=(200, 800), budget_s=(150, 700))
+def used_then_derived(case, ctx):
+    import copy as _copy
+    import pickle as _pickle
+    wl, labels = case["wavelength"], case["labels"]
+    k = int(labels.max())
+    if k < 2:
+        raise Skip("one_segment")
+    if _single(dict(case, prop_shape=None, omask=None)):
+        raise Skip("single_sample_segment(known)")
+    kw = dict(pixelscale=float(np.atleast_1d(case["dx"])[0]), focal_length=case["z"])
+    with lentil_call("C03.used.build", "Pupil (global mask / segment cube)"):
+        pm_ = lentil.Pupil(amplitude=case["amp"].copy(), opd=case["opd"].copy(), mask=case["mask"].copy(), **kw)
+        ps_ = lentil.Pupil(amplitude=case["amp"].copy(), opd=case["opd"].copy(), mask=cube(labels), **kw)
+    du = float(np.atleast_1d(case["du"])[0])
+    done, uses, derived_after_use = [], 0, False
+    eps = np.finfo(float).eps
+    for i, op in enumerate(case["ops"]):
+        o = op["op"]
+        if o != "use":
+            rng = np.random.default_rng(op["seed"])
+            shp = pm_.shape
+            with lentil_call("C03.used.derive", f"{o} after [{' '.join(done)}]"):
+                if o in ("rescale", "resample"):
+                    if max(shp) * op["s"] > 64:
+                        continue
+                    # every segment must stay resolved on the new grid (a solid block wide enough for at least two
+                    # output samples per axis: thin slivers can vanish when shrinking, and a one-sample-wide sliver on
+                    # the array border is only reached by out-of-range interpolation coordinates when growing); planes
+                    # whose segments vanish are not what this check is about
+                    if not all(_has_block(sg, max(2, int(np.ceil(2 / op["s"])) + 1)) for sg in np.asarray(ps_.mask)):
+                        continue
+                    if o == "rescale":
+                        pm_, ps_ = pm_.rescale(op["s"]), ps_.rescale(op["s"])
+                    else:
+                        pm_, ps_ = pm_.resample(pm_.pixelscale[0] / op["s"]), ps_.resample(ps_.pixelscale[0] / op["s"])
+                elif o == "copy":
+                    pm_, ps_ = pm_.copy(), ps_.copy()
+                elif o == "deepcopy":
+                    pm_, ps_ = _copy.deepcopy(pm_), _copy.deepcopy(ps_)
+                elif o == "pickle":
+                    pm_, ps_ = _pickle.loads(_pickle.dumps(pm_)), _pickle.loads(_pickle.dumps(ps_))
+                elif o == "set_opd":
+                    new = rng.uniform(-0.3, 0.3, size=shp) * wl
+                    pm_.opd, ps_.opd = new.copy(), new.copy()
+                elif o == "set_amp":
+                    new = rng.uniform(0.2, 1.0, size=shp)
+                    pm_.amplitude, ps_.amplitude = new.copy(), new.copy()
+            done.append(o + (f"({op['s']})" if o in ("rescale", "resample") else ""))
+            derived_after_use = derived_after_use or uses > 0
+            continue
+        segs = np.asarray(ps_.mask)
+        if segs.ndim != 3 or segs.shape[0] != k:
+            raise Violation("C03.used.segments", f"the segment cube became {segs.shape} after [{' '.join(done)}]")
+        boxes = [gen.bbox(sg != 0) if np.any(sg) else None for sg in segs]
+        if any(b is None or (b[1] - b[0] + 1) * (b[3] - b[2] + 1) <= 1 for b in boxes):
+            raise Skip("single_sample_segment_after_rescale(known)")
+        with lentil_call("C03.used.multiply", f"Wavefront * plane after [{' '.join(done)}]"):
+            wm, ws = lentil.Wavefront(wl) * pm_, lentil.Wavefront(wl) * ps_
+            fm, fs = wm.field, ws.field
+        peak = max(cm.max_abs(fm), 1e-300)
+        hist = " ".join(done) or "-"
+        if fs.shape != fm.shape or cm.max_abs(fs - fm) > 1e-12 * peak:
+            raise Violation("C03.used.pupil", f"use {uses} (after: {hist}): pupil field of the {k}-segment description "
+                                              f"differs from the global-mask description by {cm.max_abs(fs - fm):.3e} (peak {peak:.3e})")
+        with lentil_call("C03.used.propagate", f"propagate_dft after [{hist}]"):
+            om = lentil.propagate_dft(wm, pixelscale=du, shape=tuple(case["out_shape"]), oversample=case["oversample"])
+            os2 = lentil.propagate_dft(ws, pixelscale=du, shape=tuple(case["out_shape"]), oversample=case["oversample"])
+            gm, gs = om.field, os2.field
+        floor = 256 * eps * float(np.sum(np.abs(fm))) * (1 + k)
+        ipeak = max(cm.max_abs(gm), 1e-300)
+        if gs.shape != gm.shape or cm.max_abs(gs - gm) > 1e-11 * ipeak + floor:
+            raise Violation("C03.used.image", f"use {uses} (after: {hist}): propagated field of the {k}-segment description "
+                                              f"differs from the global-mask description by {cm.max_abs(gs - gm):.3e} (peak {ipeak:.3e})")
+        done.append("use")
+        uses += 1
+    ctx.tag(f"k:{k}", "kind:" + case["kind"], f"uses:{min(uses, 4)}", *sorted({"op:" + d.split("(")[0] for d in done if d != "use"}))
+    ctx.nontrivial_if(derived_after_use and uses >= 2)
 
 
 # --- transform level: dft2 of a sub-array with an offset -------------------------------
